@@ -1,1 +1,7 @@
-// shared helpers for the manimc harness binaries
+//! Shared pieces of the manimc harness binaries: the manifest subject (C13) and the sequential
+//! references for the LRU cache and the wait list (C18).
+
+pub mod lru_ref;
+pub mod mani_sub;
+pub mod stdout;
+pub mod wl_ref;
